@@ -55,11 +55,12 @@ class Frame:
 class Engine:
     MAX_DEPTH = 8
 
-    def __init__(self, repo, models=None, inline=(), invariants=None, name_calls=None, on_unsupported=None):
+    def __init__(self, repo, models=None, inline=(), invariants=None, name_calls=None, on_unsupported=None, alloc=None):
         self.repo = repo
         self.models = dict(models or {})          # live function/class object -> model
         self.name_calls = dict(name_calls or {})  # call-site spelling -> model (takes precedence)
         self.inline = set(inline)                 # live function objects that may be inlined
+        self.alloc = dict(alloc or {})            # class -> heap field names set by its constructor (positional order)
         self.invariants = invariants or {}        # (qualname, loop ordinal) -> spec
         self.facts = []                           # definitional facts of Skolem terms (assumed globally)
         self.obl = []                             # side obligations (name, pc, goal)
@@ -71,9 +72,11 @@ class Engine:
 
     # ------------------------------------------------------------------ solver helpers
     def feasible(self, st, *extra):
+        """may-be-feasible test used to prune branches; quantified conjuncts are dropped (over-approximation: sound, only more paths)"""
         self.n_feas += 1
         s = z3.Solver(); s.set("timeout", 3000)
-        s.add(*simp.prepare(self.facts, list(st.pc) + list(extra)))
+        conj = [c for c in list(st.pc) + list(extra) if not simp.has_quantifier(c)]
+        s.add(*simp.prepare(self.facts, conj))
         return s.check() != z3.unsat
 
     def valid(self, st, goal):
@@ -121,6 +124,8 @@ class Engine:
             return z3.And(z3.Not(v.isnone), self.truth(v.val))
         if isinstance(v, SList):
             return v.n > 0
+        if isinstance(v, RefsDict):
+            return self._cur_zh["refs_nonempty"][v.owner.t]
         if isinstance(v, Obj):
             import gfapy
             if v.cls is not None and issubclass(v.cls, gfapy.Placeholder):
@@ -290,6 +295,7 @@ class Engine:
                 yield from k(v, st2)
 
     def stmt(self, s, st):
+        self._cur_zh = st.zh
         m = getattr(self, "s_" + type(s).__name__, None)
         if m is None:
             raise Unsupported("statement %s" % type(s).__name__)
@@ -377,6 +383,13 @@ class Engine:
     def store_attr(self, o, attr, v, st):
         if isinstance(o, Obj):
             yield ("fall", None, st.setattr(o, attr, v))
+        elif isinstance(o, Ref) and attr == "_refs":
+            if v != {}:
+                raise Unsupported("assignment of %r to _refs" % (v,))
+            zh = dict(st.zh)
+            zh["refs_has"] = z3.Store(zh["refs_has"], o.t, z3.K(Str, z3.BoolVal(False)))
+            zh["refs_nonempty"] = z3.Store(zh["refs_nonempty"], o.t, z3.BoolVal(False))
+            yield ("fall", None, st.with_zh(zh))
         elif isinstance(o, Ref):
             zh = dict(st.zh)
             if attr not in zh:
@@ -392,6 +405,25 @@ class Engine:
         return S(v)
 
     def store_item(self, o, i, v, st):
+        if isinstance(o, RefsDict):
+            # self._refs[key] = <list value>: a NEW list object is stored under key
+            if not isinstance(v, (SList, LRef)):
+                if isinstance(v, list) and not v:
+                    v = SList(z3.IntVal(0), z3.K(I, z3.IntVal(0)))
+                else:
+                    raise Unsupported("store of %r into _refs" % (v,))
+            c = self.contents(v, st)
+            zh = dict(st.zh)
+            nid = zh["next_list"]
+            zh["next_list"] = nid + 1
+            zh["L_n"] = z3.Store(zh["L_n"], nid, c.n)
+            zh["L_e"] = z3.Store(zh["L_e"], nid, c.el)
+            zh["refs"] = z3.Store(zh["refs"], o.owner.t, z3.Store(zh["refs"][o.owner.t], S(i), nid))
+            zh["refs_has"] = z3.Store(zh["refs_has"], o.owner.t, z3.Store(zh["refs_has"][o.owner.t], S(i), z3.BoolVal(True)))
+            if "refs_nonempty" in zh:
+                zh["refs_nonempty"] = z3.Store(zh["refs_nonempty"], o.owner.t, z3.BoolVal(True))
+            yield ("fall", None, st.with_zh(zh))
+            return
         if isinstance(o, dict):
             ci = conc(i)
             if ci is NotConcrete:
@@ -536,6 +568,7 @@ class Engine:
 
     # ------------------------------------------------------------------ expressions
     def expr(self, e, st):
+        self._cur_zh = st.zh
         m = getattr(self, "e_" + type(e).__name__, None)
         if m is None:
             raise Unsupported("expression %s" % type(e).__name__)
@@ -643,7 +676,7 @@ class Engine:
                 yield ("val", StrMethod(o, attr), st)
             else:
                 yield ("raise", Exc(AttributeError), st)
-        elif isinstance(o, SList):
+        elif isinstance(o, (SList, LRef)):
             yield ("val", StrMethod(o, attr), st)
         elif o is None:
             yield ("raise", Exc(AttributeError), st)
@@ -1088,6 +1121,9 @@ class Engine:
             if isinstance(it, PieceList):
                 yield from self.bm.comprehension_over_pieces(e, g, it, st2)
                 continue
+            if isinstance(it, (SList, LRef)) and not g.ifs:
+                yield from self.map_alloc(e, g, self.contents(it, st2), st2)
+                continue
             if not isinstance(it, (list, tuple, range)):
                 raise Unsupported("comprehension over %r" % (it,))
             saved = st2.env
@@ -1113,6 +1149,37 @@ class Engine:
                                 yield from go(items[1:], acc, st5.assume(z3.Not(t)))
                     yield from conds(list(g.ifs), st3)
             yield from go(list(it), [], st2)
+
+    def map_alloc(self, e, g, lst, st):
+        """[C(f1(x), f2(x)) for x in <symbolic list>] with C an allocatable class: n fresh objects (ids next..next+n-1) whose
+        constructor fields are given pointwise; every existing object keeps its fields (allocation never aliases)"""
+        elt = e.elt
+        if not (isinstance(elt, ast.Call) and isinstance(g.target, ast.Name)):
+            raise Unsupported("comprehension over a symbolic list: only constructor maps are supported")
+        outs = list(self.expr(elt.func, st))
+        if len(outs) != 1 or outs[0][0] != "val" or outs[0][1] not in self.alloc:
+            raise Unsupported("comprehension over a symbolic list: %s is not an allocatable class" % ast.unparse(elt.func))
+        cls = outs[0][1]
+        fields = self.alloc[cls]
+        if len(elt.args) != len(fields) or elt.keywords:
+            raise Unsupported("constructor arity")
+        kv = fresh("kx", I)
+        stb = st.bind(g.target.id, lst.mk(lst.el[kv]))
+        terms = []
+        for a in elt.args:
+            o = list(self.expr(a, stb))
+            if len(o) != 1 or o[0][0] != "val" or not is_sym(S(o[0][1])):
+                raise Unsupported("constructor argument with control flow")
+            terms.append(S(o[0][1]))
+        nxt = st.zh["next"]
+        x = z3.Int("x!alloc")
+        zh = dict(st.zh)
+        for f, t in zip(fields, terms):
+            body = z3.substitute(t, (kv, x - nxt))
+            zh[f] = z3.Lambda([x], z3.If(z3.And(nxt <= x, x < nxt + lst.n), body, st.zh[f][x]))
+        zh["next"] = nxt + lst.n
+        k = z3.Int("k!new")
+        yield ("val", SList(lst.n, z3.Lambda([k], nxt + k), lambda t, cls=cls: Ref(t, cls)), st.with_zh(zh))
 
     def e_GeneratorExp(self, e, st):
         yield from self.e_ListComp(e, st)
